@@ -297,6 +297,13 @@ def build_state(gen, model, pre, roots, world):
             elif isinstance(back, ArrV):
                 for i, it in enumerate(back.items[:ln]):
                     emit_val(root, path + (i,), it, et, "%s[%d]" % (nm, i))
+        elif isinstance(val, Iface) and isinstance(val.t, int) and isinstance(val.v, Ptr) and val.v.obj is not None and not val.v.path:
+            # interface holding a pointer to a struct of this package: allocate it with its static type
+            te = gen.tyexpr(val.t)
+            if val.v.obj not in done:
+                L.append("objs[%s] = reflect.New(reflect.TypeOf((%s)(nil)).Elem())" % (json.dumps(val.v.obj), te))
+            L.append("vrW(vrWalk(%s, %s)).Set(objs[%s])" % (root, gen.path(path), json.dumps(val.v.obj)))
+            emit_obj(val.v.obj)
         elif isinstance(val, (Closure, Iface, ChanV)):
             isnil = (isinstance(val, Closure) and val.fn is None) or (isinstance(val, Iface) and val.t is None) or \
                     (isinstance(val, ChanV) and val.id is None)
